@@ -704,6 +704,9 @@ func (in *Inst) applyContract(con *Contract, args []Val, sig *types.Signature, r
 	}
 	// requires
 	for i, r := range con.Requires {
+		if e.W.otherProp(r.Prop) {
+			continue // hypothesis of another property's theorem: checked at call sites in that property's run
+		}
 		t := in.specBool(r.Expr, env)
 		e.oblige("pre", fmt.Sprintf("%s#%d", shortKey(con.Key), i), pos, st.reach, t)
 	}
@@ -968,7 +971,7 @@ func (in *Inst) callAssertsOf(con *Contract, inherited bool, x *ssa.Call, st *St
 		ord = -2 // clauses of the enclosing function under contract apply to inlined code only when they name no ordinal
 	}
 	for i, ca := range con.Asserts {
-		if ca.Callee != name || ca.After != after || (ca.Ordinal >= 0 && ca.Ordinal != ord) {
+		if ca.Callee != name || ca.After != after || (ca.Ordinal >= 0 && ca.Ordinal != ord) || in.e.W.otherProp(ca.Clause.Prop) {
 			continue
 		}
 		env := in.newEnv(st)
@@ -1360,4 +1363,9 @@ func (w *World) typeComps(e *Enc, from *types.Package, name string) []string {
 		e.fail("alltype: unknown type %q", name)
 	}
 	return e.allComps(tn.Type())
+}
+
+// otherProp: is the clause tagged for a property other than the one being checked?
+func (w *World) otherProp(tag string) bool {
+	return tag != "" && w.curProp != "" && tag != w.curProp
 }
